@@ -151,7 +151,7 @@ pub fn run(fam: &str, seed: u64, n: u64, x: &mut Exec, sink: &mut Sink) {
                 for _ in 0..4 {
                     let off = edge_off(&mut r, len);
                     let op = if r.chance(1, 2) { "str_get_raw" } else { "str_get" };
-                    sink.run(x, &json!({"op":op,"buf":"st","off":w8(off)}));
+                    sink.run(x, &json!({"op":op,"bufslot":"st","off":w8(off)}));
                 }
             }
         }
